@@ -210,13 +210,13 @@ copied over the head of its chunk. -/
 def flatMatrix (fixed : Bool) (K : Nat) (rows : List (List Nat)) : List Nat :=
   bosRow fixed K ++ (rows.map (padRow K)).flatten
 
-/-- `RawConnector::from_readers`.  `chunks_mut(feat_template_size)` panics for chunk size 0,
-i.e. when both feature files are empty. -/
+/-- `RawConnector::from_readers`.  Pinned code: `chunks_mut(feat_template_size)` panics for chunk
+size 0, i.e. when no feature template exists; repaired code: an error. -/
 def fromReaders (fixed : Bool) (parseCsvRow : Str → Outcome (List Str))
     (right left cost : List (Option Str)) : Outcome Conn :=
   match builderFromReaders parseCsvRow right left cost with
   | .ok b =>
-    if paddedSize b.K = 0 then .panic
+    if paddedSize b.K = 0 then (if fixed then .err else .panic)
     else
       match buildChecked b.trie with
       | .ok scorer =>
